@@ -261,13 +261,13 @@ func c19R3(c *Ctx) {
 	}
 	{
 		// no exit of the error handler precedes the attempt to latch 'stopped' (an early "nothing to do" return makes the session immune to Ctrl-C and to the timeout)
-		h0, p0 := reachFrom(f.Blocks[0], 0, isReturn, func(in ssa.Instruction) bool { return isStoppedSet(in) })
+		h0, p0 := reachFrom(f.Blocks[0], 0, isReturn, c.orWrapper("zm-latch", func(in ssa.Instruction) bool { return isStoppedSet(in) }))
 		c.check(h0 == nil, "handleZmodemError/always-latches", c.pos(f.Pos()), "every call of the error handler tries to latch 'stopped'", "the error handler can return without trying to stop the session", c.pathStr(p0)...)
 		st := c.fn("zmodemTransfer.stopTransferringFiles")
-		h1, p1 := reachFrom(st.Blocks[0], 0, isReturn, func(in ssa.Instruction) bool {
+		h1, p1 := reachFrom(st.Blocks[0], 0, isReturn, c.orWrapper("zm-error-path", func(in ssa.Instruction) bool {
 			c2, ok := in.(ssa.CallInstruction)
 			return ok && calleeID(c2.Common()) == "(*trzsz.zmodemTransfer).handleZmodemError"
-		})
+		}))
 		c.check(h1 == nil, "stopTransferringFiles/always-error-path", c.pos(st.Pos()), "a stop request always takes the error path", "a stop request (Ctrl-C) can return without taking the error path", c.pathStr(p1)...)
 	}
 	hit, path := reachFrom(won, 0, isReturn, isCancelWrite)
@@ -305,7 +305,7 @@ func c19R3(c *Ctx) {
 		}
 		for _, name := range []string{"zmodemTransfer.uploadFiles", "zmodemTransfer.downloadFiles"} {
 			g := c.fn(name)
-			hit, path := reachFrom(g.Blocks[0], 0, isReturn, callTo("(*trzsz.zmodemTransfer).handleZmodemStream", "(*trzsz.zmodemTransfer).handleZmodemError"))
+			hit, path := reachFrom(g.Blocks[0], 0, isReturn, c.orWrapper("zm-bridge-or-error", callTo("(*trzsz.zmodemTransfer).handleZmodemStream", "(*trzsz.zmodemTransfer).handleZmodemError")))
 			c.check(hit == nil, name+"/always-bridge-or-error", c.pos(g.Pos()), "the attempt always ends in the bridge or in the error path", "the attempt can return having neither started the bridge nor reported an error: the session hangs with the remote program waiting", c.pathStr(path)...)
 		}
 		ece := c.fn("zmodemTransfer.ensureClientExit")
@@ -322,7 +322,7 @@ func c19R3(c *Ctx) {
 			c.check(hit == nil, "ensureClientExit/always-kills", c.pos(k.Pos()), "the armed guard always kills the helper", "the armed guard can end without killing the helper (a helper that hangs after its finish header is immune)", c.pathStr(path)...)
 		}
 		rct := c.fn("zmodemTransfer.resetCleanupTimer")
-		hit, path = reachFrom(rct.Blocks[0], 0, isReturn, callTo("time.AfterFunc"))
+		hit, path = reachFrom(rct.Blocks[0], 0, isReturn, c.orWrapper("zm-afterfunc", callTo("time.AfterFunc")))
 		c.check(hit == nil, "resetCleanupTimer/always-arms", c.pos(rct.Pos()), "re-arming always ends with a running clean-up timer", "re-arming the clean-up can return without a running timer: the session is never declared cleaned", c.pathStr(path)...)
 		if cb := c.Funcs["zmodemTransfer.resetCleanupTimer$1"]; cb != nil {
 			hit, path = reachFrom(cb.Blocks[0], 0, isReturn, func(in ssa.Instruction) bool {
